@@ -1,4 +1,5 @@
 import Driver.Util
+import Driver.C02
 import Driver.C05
 import Driver.C06
 import Driver.C07
@@ -9,6 +10,7 @@ open Lean Drv
 def dispatch (j : Json) : Except String Json := do
   let p ← fld j "p" jStr
   match p with
+  | "C02" => Drv.C02.handle j
   | "C05" => Drv.C05.handle j
   | "C06" => Drv.C06.handle j
   | "C07" => Drv.C07.handle j
